@@ -331,7 +331,7 @@ class ScalarToFile(Module):
         # Add all signals
         for s in self.sig_in:
             if np.ndim(s.state) > 0:
-                it = np.nditer(s.state, flags=['multi_index'])
+                it = np.nditer(s.state, flags=['multi_index'], order='C')
                 while not it.finished:
                     dat.append(it.value.__format__(self.format))
                     if tags is not None:
